@@ -68,6 +68,9 @@ def contexts(as_mid, as_low):
         'ctx_uses': F('json', {'own0': 'u0'}, uses=[{'ctx': F('yaml', {'own1': 'u1'})}]),
         'mutable': D({'mut': [1, [2, {'k': [3]}]]}),
         # the caller's own dict / Context object names further context files
+        # a context whose `uses` names two files that set the same keys: the later one wins, whatever the files are called
+        'ctx_uses_order': F('json', {'own0': 'top'}, uses=[{'ctx': F('yaml', {'shared': 'first', 'own1': 'first1'}, file='zz_defaults.yaml')},
+                                                           {'ctx': F('json', {'shared': 'second'}, file='aa_cluster.json')}]),
         'dict_uses': D({'own0': 'u0'}, uses=[{'ctx': F('yaml', {'own1': 'u1'})}]),
         'object_uses': F('object', {'own0': 'u0'}, uses=[{'ctx': F('json', {'own1': 'u1', 'shared': 'u-shared'})}]),
     }
@@ -100,7 +103,7 @@ def tree_family(tier):
     for as_mid, as_low in itertools.product((None, 'a'), (None, 'b')):
         for media in medias:
             for cname, ctx in contexts(as_mid, as_low).items():
-                if tier == 'quick' and media != 'jjy' and cname not in ('none', 'exact', 'list2', 'uses-as', 'global+exact', 'uses-as-then-plain', 'dict_uses', 'object_uses'):
+                if tier == 'quick' and media != 'jjy' and cname not in ('none', 'exact', 'list2', 'uses-as', 'global+exact', 'uses-as-then-plain', 'dict_uses', 'object_uses', 'ctx_uses_order'):
                     continue
                 d = base_desc(as_mid, as_low, media)
                 d['context'] = ctx
